@@ -1,6 +1,7 @@
 SPECIFICATION TSpec
 CONSTANTS Scenarios = {}
-  MaxN = 99 MaxVer = 9
+  LenProfiles = {}
+  MaxN = 99
   Forms = {"seq"}
   StopKinds = {"close", "abandon"}
   KeepHistory = FALSE
